@@ -401,6 +401,15 @@ def prev_for_eq(draw, v, tier):
 
 
 @st.composite
+def keyed_value(draw, tier):
+    keys = draw(st.lists(st.sampled_from([["str", "a"], ["str", "b"], ["str", "c"], ["int", 1], ["int", 2], ["none"],
+                                          ["tuple", [["int", 1], ["int", 2]]]]),
+                         min_size=2, max_size=4, unique_by=repr))
+    small = gv.values(tier, 3)
+    return ["dict", [[k, draw(small)] for k in keys]]
+
+
+@st.composite
 def site_with_prev(draw, tier="quick", ops=("eq", "le", "ge", "in", "getitem"), styles=("assert",),
                    places=PLACES, max_leaves=None, noise=None, p_missing=0.15):
     """site whose previous argument text is a (noisy) rendering of a generated previous value.
@@ -420,7 +429,11 @@ def site_with_prev(draw, tier="quick", ops=("eq", "le", "ge", "in", "getitem"), 
                 "prev_desc": pd, "prev": text(pd)}
 
     if op == "eq":
-        events = draw(simple_events("eq", tier, max_leaves))
+        if draw(st.integers(0, 5)) == 0:
+            # record-like values: several keyed entries, so that edits move, drop and change entries of one mapping
+            events = [draw(keyed_value(tier))] * draw(st.sampled_from([1, 1, 2]))
+        else:
+            events = draw(simple_events("eq", tier, max_leaves))
         pd = None if missing else draw(prev_for_eq(events[0], tier))
     elif op in ("le", "ge"):
         fam = draw(ordered_family_with_prev(tier))
